@@ -928,4 +928,85 @@ theorem C09_bin_reader_skip_balanced (data r : Bytes) (rd : Reader) (h : RInv rd
   obtain ⟨a, b, _, c⟩ := C09_bin_reader_skip data rd _ h hfit hnf hl
   exact ⟨a, b, c⟩
 
+theorem lexeme_none_bound (w : Bytes) (h : lexeme w = none) : w.length < 65539 := by
+  rw [lexeme_eq] at h
+  cases hid : readId w with
+  | error e =>
+    have : e = .eof := by
+      cases e with
+      | eof => rfl
+      | invalidRgb => simp [readId] at hid; split at hid <;> simp at hid
+    subst this
+    have := readId_eofBound w hid
+    omega
+  | ok v =>
+    obtain ⟨id, d1⟩ := v
+    rw [hid] at h
+    simp only [Option.map_eq_none_iff] at h
+    have hw := readId_maxLen w id d1 hid
+    unfold payloadRest at h
+    by_cases h1 : id = CLOSE
+    · rw [if_pos h1] at h; simp at h
+    rw [if_neg h1] at h
+    by_cases h2 : id = OPEN
+    · rw [if_pos h2] at h; simp at h
+    rw [if_neg h2] at h
+    by_cases h3 : id = BOOL
+    · rw [if_pos h3] at h
+      by_cases hl : 1 ≤ d1.length
+      · rw [if_pos hl] at h; simp at h
+      · omega
+    rw [if_neg h3] at h
+    by_cases h4 : id = F32 ∨ id = U32 ∨ id = I32
+    · rw [if_pos h4] at h
+      by_cases hl : 4 ≤ d1.length
+      · rw [if_pos hl] at h; simp at h
+      · omega
+    rw [if_neg h4] at h
+    by_cases h5 : id = F64 ∨ id = I64 ∨ id = U64
+    · rw [if_pos h5] at h
+      by_cases hl : 8 ≤ d1.length
+      · rw [if_pos hl] at h; simp at h
+      · omega
+    rw [if_neg h5] at h
+    by_cases h6 : id = QUOTED ∨ id = UNQUOTED
+    · rw [if_pos h6] at h
+      cases hs : readString d1 with
+      | ok v => obtain ⟨x, dd⟩ := v; rw [hs] at h; simp at h
+      | error e =>
+        have := readString_err hs
+        subst this
+        have := readString_eofBound d1 hs
+        omega
+    rw [if_neg h6] at h
+    simp at h
+
+/-- with the documented minimal buffer every lexeme fits, so `C09_bin_reader_skip` applies -/
+theorem skipFits_of_large (cap : Nat) (hcap : 65539 ≤ cap) (d : Bytes) (depth : Nat) : SkipFits cap d depth := by
+  suffices h : ∀ n (d : Bytes) (depth : Nat), d.length ≤ n → SkipFits cap d depth from
+    h d.length d depth (Nat.le_refl _)
+  intro n
+  induction n with
+  | zero =>
+    intro d depth hd
+    refine SkipFits.mk d depth ?_ ?_
+    · intro k hk he
+      have := lexeme_none_bound _ he
+      simp at this; omega
+    · intro id r hlx _
+      obtain ⟨pre, hpre, hlen⟩ := lexeme_consumes hlx
+      have : d.length = pre.length + r.length := by rw [hpre]; simp
+      omega
+  | succ n ih =>
+    intro d depth hd
+    refine SkipFits.mk d depth ?_ ?_
+    · intro k hk he
+      have := lexeme_none_bound _ he
+      simp at this; omega
+    · intro id r hlx _
+      obtain ⟨pre, hpre, hlen⟩ := lexeme_consumes hlx
+      apply ih
+      have : d.length = pre.length + r.length := by rw [hpre]; simp
+      omega
+
 end Jomini.BinReader
